@@ -446,7 +446,7 @@ func (pc *pairCtx) recordedElem(fn *ssa.Function, peer ssa.Value, el ssa.Value, 
 // rulePairing: every list handed to the sender has been recorded in the bookkeeping.
 func (c *Ctx) rulePairing(rule string) {
 	r := c.R
-	r.Rule(rule, "send ⇐ record: at every call of sendfsmOutgoingMsg(peer, list) the list has been passed to peer.updateRoutes on every path (as a whole, element by element, or built by an inline closure that records it before returning); elements known to be already advertised may be skipped", 10)
+	r.Rule(rule, "send ⇐ record: at every call of sendfsmOutgoingMsg(peer, list) the list has been passed to peer.updateRoutes on every path (as a whole, element by element, or built by an inline closure that records it before returning); elements known to be already advertised may be skipped", 8)
 	send := c.P.Func("pkg/server.sendfsmOutgoingMsg")
 	upd := c.P.Func("(*pkg/server.peer).updateRoutes")
 	already := c.P.Func("(*pkg/server.peer).hasPathAlreadyBeenSent")
